@@ -36,12 +36,49 @@ ASSUMPTIONS = [
     'undo of a transaction that itself holds several records of one oid '
     '(an earlier overlapping multi-undo) is not generated',
 ]
-SHRINK = ['ops']
+SHRINK = ['ops', 'scripts']
 PATH = '/sim/Data.fs'
+
+
+def gen_sched(seed, tier):
+    """"Other connections see it at their next boundary", under the
+    scheduler: a client commits several cells in one transaction and undoes
+    it while readers with partly filled caches cross their boundaries;
+    line-level pre-emption inside the MVCC adapter.  (The worlds and
+    snapshot oracles of C02/C03.)"""
+    from .. import mvcc
+    from .. import seams
+    r = random.Random(seed)
+    ncell = r.choice((2, 2, 3))
+    writer = []
+    for _ in range(r.randint(1, 3)):
+        writer.append({'steps': [['w', k] for k in
+                                 r.sample(range(ncell), r.randint(2, ncell))]})
+        writer.append({'t': 'undo', 'k': -1})
+        if r.random() < 0.3:
+            writer.append({'t': 'undo', 'k': -1})       # undo the undo
+    scripts = [writer]
+    for _ in range(r.choice((1, 2, 2))):
+        sc = []
+        for _ in range(r.randint(3, 7)):
+            ks = r.sample(range(ncell), r.randint(1, ncell))
+            sc.append({'steps': [['r', k] for k in ks]})
+        scripts.append(sc)
+    sch = mvcc.sched_config(r)
+    sch['fine'] = {'p': r.choice((0.1, 0.3, 0.5)),
+                   'prefix': seams.repo_src() + '/ZODB/mvccadapter'}
+    return {'arm': 'sched', 'kind': 'file', 'ncell': ncell,
+            'cache_size': 400, 'pool_size': 7,
+            'bufsize': r.choice((64, 8192)),
+            'classes': ['Cell'] * ncell,
+            'explicit': [r.random() < 0.3 for _ in scripts],
+            'sched': sch, 'tick': 0.37, 'tier': tier, 'scripts': scripts}
 
 
 def gen(seed, tier):
     r = random.Random(seed)
+    if r.random() < 0.06:
+        return gen_sched(ctx.subseed(seed, 'sched'), tier)
     arm = 'db' if r.random() < 0.25 else 'storage'
     if arm == 'db':
         from . import c06db
@@ -110,6 +147,12 @@ def state_of(model, oids):
 
 
 def run(case):
+    if case.get('arm') == 'sched':
+        from . import c03
+        res = c03.run(dict(case, arm='conn'))
+        res['stats']['arm:sched'] = 1
+        res['stats'].pop('arm:conn', None)
+        return res
     if case.get('arm') == 'db':
         from . import c06db
         return c06db.run(case)
